@@ -29,17 +29,17 @@ from cxx2lean import Refuse  # noqa: E402
 TYPES = list(K11.SIMPLE) + ["imep", "team", "pop", "summ"]
 # objects per type, max stream length for exhaustive prefixes, token mutations per object: (quick, thorough)
 BUDGET = {
-    "hash": ((30, 400, 40), (300, 4000, 400)),
-    "fit": ((60, 400, 40), (600, 4000, 400)),
-    "iga": ((40, 300, 60), (400, 3000, 400)),
-    "ide": ((40, 300, 60), (400, 3000, 400)),
-    "mati": ((30, 300, 60), (300, 3000, 400)),
-    "matu": ((30, 300, 60), (300, 3000, 400)),
-    "dist": ((30, 400, 80), (300, 3000, 400)),
-    "imep": ((40, 300, 80), (400, 3000, 600)),
-    "team": ((12, 300, 80), (100, 3000, 600)),
-    "pop": ((12, 300, 100), (100, 3000, 800)),
-    "summ": ((25, 300, 80), (250, 3000, 600)),
+    "hash": ((100, 600, 120), (800, 6000, 1000)),
+    "fit": ((200, 600, 120), (1600, 6000, 1000)),
+    "iga": ((150, 600, 120), (1200, 6000, 1000)),
+    "ide": ((150, 600, 120), (1200, 6000, 1000)),
+    "mati": ((100, 600, 120), (800, 6000, 1000)),
+    "matu": ((100, 600, 120), (800, 6000, 1000)),
+    "dist": ((100, 600, 160), (800, 6000, 1000)),
+    "imep": ((150, 600, 160), (1200, 6000, 1000)),
+    "team": ((40, 600, 160), (300, 6000, 1000)),
+    "pop": ((40, 600, 200), (300, 6000, 1200)),
+    "summ": ((80, 600, 160), (600, 6000, 1000)),
 }
 FAILISH = ("fail", "exc:bad_alloc", "exc:length_error")
 
@@ -164,6 +164,7 @@ def run(chk, replay=None):
         symtab = {t: (o1[0]["ctx"] if o1 else "") for t in K11.NEEDS_CTX}
     lines = [f"ld {t} {ts} {hx}" for t, _, ts, hx, _ in reqs]
     shards = max(1, min(8, len(lines) // 4000))
+    chk.cov["requests"] = len(lines)
 
     def cpp(idx):
         sub = lines[idx::shards]
